@@ -7,6 +7,8 @@ from fractions import Fraction as F
 from typing import Iterator, List, Sequence, Tuple
 
 SPACINGS = {
+    # rows at ..., 30, 10, -10, -30, ...: mid-interval closing temperatures include exactly 0.0, and half the rows are negative
+    "zero-mid": lambda n: [20 * (n - i) - 10 * (n + (n % 2)) - 10 for i in range(n)],
     "uniform": lambda n: [10 * (n - i) for i in range(n)],
     "widening": lambda n: [sum(5 * (k + 1) for k in range(i, n)) for i in range(n)],          # 5,10,15.. gaps from bottom
     "irregular": lambda n: [sum([7, 13, 4, 21, 9, 16, 6, 11, 8][k % 9] for k in range(i, n)) for i in range(n)],
